@@ -49,7 +49,10 @@ var (
 )
 
 func genOp(t *rapid.T) Op {
-	switch rapid.SampledFrom([]string{"queue", "queue", "queue", "get", "get", "get", "prune", "reset", "num", "setn"}).Draw(t, "op") {
+	switch rapid.SampledFrom([]string{"queue", "queue", "queue", "get", "get", "get", "prune", "reset", "num", "setn", "queue", "queue", "get", "get", "prune", "bulk"}).Draw(t, "op") {
+	case "bulk":
+		// a backlog: the ordered structure behind the queue grows past a single node
+		return Op{Kind: "bulk", N: rapid.SampledFrom([]int{40, 64, 65, 130, 300}).Draw(t, "count"), Len: rapid.SampledFrom([]int{0, 1, 10}).Draw(t, "len")}
 	case "queue":
 		o := Op{Kind: "queue"}
 		o.BKind = rapid.SampledFrom([]string{"named", "named", "unique", "plain"}).Draw(t, "bkind")
@@ -70,7 +73,7 @@ func genOp(t *rapid.T) Op {
 		lim := rapid.OneOf(rapid.IntRange(0, 30), rapid.IntRange(0, 300), rapid.Just(100000)).Draw(t, "limit")
 		return Op{Kind: "get", Overhead: rapid.IntRange(0, 3).Draw(t, "overhead"), Limit: lim}
 	case "prune":
-		return Op{Kind: "prune", K: rapid.IntRange(0, 6).Draw(t, "k")}
+		return Op{Kind: "prune", K: rapid.OneOf(rapid.IntRange(0, 6), rapid.IntRange(0, 6), rapid.SampledFrom([]int{10, 32, 63, 64, 100})).Draw(t, "k")}
 	case "reset":
 		return Op{Kind: "reset"}
 	case "setn":
@@ -505,6 +508,21 @@ func runPlan(p Plan) (res vfx.Result) {
 				m.queue(b)
 				allB = append(allB, b)
 				byPtr[ptr(b.msg)] = m.items[len(m.items)-1]
+			case "bulk":
+				nontrivial = true
+				labels["bulk"] = true
+				for k := 0; k < op.N; k++ {
+					seq++
+					b := &bcast{seq: seq, kind: "unique"}
+					b.msg = make([]byte, op.Len+k%3, op.Len+k%3+8)
+					q.QueueBroadcast(unique{b})
+					m.queue(b)
+					allB = append(allB, b)
+					byPtr[ptr(b.msg)] = m.items[len(m.items)-1]
+				}
+				if len(m.items) >= 64 {
+					labels["backlog>=64"] = true
+				}
 			case "get":
 				if err := doGet(step, op.Overhead, op.Limit); err != nil {
 					return err
